@@ -19,8 +19,8 @@ Print Assumptions depth_invariant.
 
 (* break / continue / return discard continuation entries and pop exactly the
    blocks those entries owned. *)
-Theorem break_restores_scope : forall t bs vs t' bs' vs',
-  break_unwind t bs vs = Some (t', bs', vs') -> length bs' + pending t = length bs + pending t'.
+Theorem break_restores_scope : forall t bs vs t' bs' vs' lu,
+  break_unwind t bs vs = Some (t', bs', vs', lu) -> length bs' + pending t = length bs + pending t'.
 Proof. exact break_unwind_balance. Qed.
 Print Assumptions break_restores_scope.
 
